@@ -39,6 +39,7 @@ NEEDS = {
     "X_Integral": ["integral", "volume"],
     "X_MeshIndex": ["meshindex"],
     "C11_Homogeneous": ["meanflags"], "C11_InputForms": ["meanflags"],
+    "C06_SourceForms": ["srcforms"],
     "C04_DiffInterior": ["Mdiff"], "C04_ConvInterior": ["Mconv"], "C04_UpInterior": ["Mup"],
 }
 # observed outputs that have a reference counterpart (conformance tripwire)
